@@ -182,6 +182,26 @@ theorem c06_upload_credit_returned (lens : List Nat) (hl : ∀ l ∈ lens, l ≤
     push_cast
     cases w <;> simp at g2 ⊢ <;> omega
 
+/-- **Completion**: a response stalled on a window resumes *and completes* once credit is
+    granted.  For every open stream, once the client has granted enough credit for the
+    remainder on the stream and on the connection, every sequence of write opportunities of
+    at least 2048 octets each (the deferral threshold) drains the body: after at most
+    ⌈pending/2048⌉+1 turns the stream has sent exactly its remaining body and is ended.
+    (`turns` charges the connection window with what the stream itself sends; other streams
+    sending in between only matter through the hypothesis on the connection window.) -/
+theorem c06_completes (s : FcStream) (cw : Int) (bs : List Nat)
+    (hopen : s.st = .open) (hs : (s.pending : Int) ≤ s.swin) (hc : (s.pending : Int) ≤ cw)
+    (hb : ∀ b ∈ bs, 2048 ≤ b) (hl : s.pending < 2048 * bs.length) :
+    (turns s cw bs).1.st = .closed ∧ (turns s cw bs).1.pending = 0 ∧
+    (turns s cw bs).1.sent = s.sent + s.pending :=
+  turns_complete bs s cw hopen hs hc hb hl
+
+/-- non-vacuity: a 5000-octet body with 5000 octets of credit completes in 3 turns of 2048 -/
+example : (turns { id := 1, swin := 5000, credit := 5000, pending := 5000 } 5000
+            [2048, 2048, 2048]).1.pending = 0 ∧
+          (turns { id := 1, swin := 5000, credit := 5000, pending := 5000 } 5000
+            [2048, 2048, 2048]).1.sent = 5000 := by decide
+
 /-- the windows advertised in the server connection preface (read back from the code) -/
 theorem c06_advertised_windows :
     Extracted.h2AdvInitialWindow = 65536 ∧ Extracted.h2AdvConnWindowUpdate + 65535 = 262144 ∧
